@@ -5,6 +5,8 @@
 
 #include <gmlc/libguarded/lr_guarded.hpp>
 
+#include <optional>
+
 #include <chrono>
 
 using wl::Cell;
@@ -15,7 +17,21 @@ static const char* const OPN[] = {"modify", "read", "modify_throw", "read_loop"}
 
 namespace {
 struct State {
-    LR lr;
+    // the wrapper is built from nothing, from an rvalue or from an lvalue of the payload
+    // (a constructor that forwards its arguments twice leaves the second copy moved-from)
+    std::optional<LR> lr;
+    State()
+    {
+        switch (gsim::knob("ctor", 0, 2)) {
+            case 1: lr.emplace(Cell(0)); break;
+            case 2: {
+                Cell init(0);
+                lr.emplace(init);
+                break;
+            }
+            default: lr.emplace(); break;
+        }
+    }
     // oracle state (touched only inside gsim::Oracle scopes)
     int mod_invoked = 0;  // modifies whose effect may be visible
     int mod_done = 0;  // modifies that have returned (effect must be visible)
@@ -59,7 +75,7 @@ void do_modify(int throw_at)
     }
     bool threw = false;
     try {
-        S->lr.modify(Inc{&apps, throw_at});
+        S->lr->modify(Inc{&apps, throw_at});
     }
     catch (const gsim::injected&) {
         threw = true;
@@ -103,10 +119,10 @@ LR::shared_handle acquire(int form)
 {
     using namespace std::chrono_literals;
     switch (form & 3) {
-        case 0: return S->lr.lock_shared();
-        case 1: return S->lr.try_lock_shared();
-        case 2: return S->lr.try_lock_shared_for(5ms);
-        default: return S->lr.try_lock_shared_until(std::chrono::steady_clock::now() + 5ms);
+        case 0: return S->lr->lock_shared();
+        case 1: return S->lr->try_lock_shared();
+        case 2: return S->lr->try_lock_shared_for(5ms);
+        default: return S->lr->try_lock_shared_until(std::chrono::steady_clock::now() + 5ms);
     }
 }
 
@@ -173,13 +189,13 @@ void final_checks(int extra)
         total = S->mod_done;
     }
     for (int k = 0; k <= extra; k++) {
-        auto h = S->lr.lock_shared();
+        auto h = S->lr->lock_shared();
         long v = h->read();
         if (v != total + k)
             gsim::fail("lost_update", "after all threads joined and %d further modifies the "
                        "value is %ld, expected %d", k, v, total + k);
         h.reset();
-        if (k < extra) S->lr.modify([](Cell& c) { c.rmw_add(1); });
+        if (k < extra) S->lr->modify([](Cell& c) { c.rmw_add(1); });
     }
 }
 
